@@ -433,7 +433,7 @@ func (r *coreRun) runThread(ts ThreadSpec) {
 			if p == nil {
 				p = hs["root"]
 			}
-			r.log(M{"e": "subcall", "t": ts.Name})
+			r.log(M{"e": "subcall", "t": ts.Name, "po": p.obj})
 			var ns tally.Scope
 			ni := &scopeInfo{}
 			if op.Tags != nil {
